@@ -286,7 +286,7 @@ def run(run):
     if rc != 0:
         run.correspondence_break("Gen/GenData.v, Model/Expand.v or Model/Body.v does not build", None, error=out[-1500:])
     check_template_body(run, run.rng, run.tier == "quick")
-    n = 700 if run.tier == "quick" else 20000
+    n = 1200 if run.tier == "quick" else 20000
     cases = [make_case(run.rng) for _ in range(n)]
     run_cases(run, cases, "acyclic")
     run.extra["traces_validated_against_impl"] = run.evaluations
